@@ -788,8 +788,10 @@ def lean_program(spec):
                 nodes.append(f"({i} op {st} {can[nd['a']]} {can[nd['b']]})")
             elif op in ("addc", "mulc"):
                 nodes.append(f"({i} op {st} {can[nd['a']]})")
-            elif op in ("kind", "flat"):
+            elif op in ("kind", "flat", "bcast"):
                 nodes.append(f"({i} op {st} {' '.join(str(can[c]) for c in nd['args'])})")
+            elif op == "ctor":
+                nodes.append(f"({i} op {st})")
             else:
                 raise ValueError(op)
         outs = " ".join(f"({tab[nm]} {can[o]})" for nm, o in rk["outputs"])
